@@ -567,7 +567,10 @@ def judge(obs, run, pname, info, history="single"):
         bad.append((sig, f"{inv}: {msg}"))
 
     n_new = len(obs["new_keys"])
-    n_pts = len(obs["func_points"])
+    # oracle boundary: completing an entry recorded by an earlier execution (e.g. the objective at a point where only
+    # a constraint was stored) creates no entry and consumes no budget; B2 counts the points not recorded before
+    old_bytes = {np.asarray(k_, dtype=float).tobytes() for k_ in obs["old_keys"]}
+    n_pts = len([p_ for p_ in obs["func_points"] if p_ not in old_bytes])
     n_all = len(dict.fromkeys(obs["func_points"] + obs["jac_points"]))
     use_db = st["use_database"]
     serial = st.get("n_processes", 1) == 1
@@ -598,8 +601,7 @@ def judge(obs, run, pname, info, history="single"):
             v(inv, f"the original functions were called at {n_pts} distinct points for max_iter={n}" + (f" (+{extra_pts} sub-problem entries)" if extra_pts else "") + f"; {n_new} new database entries")
         elif use_db:
             # derivatives asked at a point recorded by an earlier execution create nothing: only unrecorded points count
-            oldb = {np.asarray(k_, dtype=float).tobytes() for k_ in obs["old_keys"]}
-            n_all_new = len([p_ for p_ in dict.fromkeys(obs["func_points"] + obs["jac_points"]) if p_ not in oldb])
+            n_all_new = len([p_ for p_ in dict.fromkeys(obs["func_points"] + obs["jac_points"]) if p_ not in old_bytes])
             if n_all_new > budget + extra_pts:
                 v("budget-points-with-jacobians", f"original functions and derivatives were called at {n_all_new} distinct unrecorded points for max_iter={n}")
     else:
@@ -800,8 +802,9 @@ def check_case(case, tally):
             os.setpgrp()  # the manager / worker processes of a parallel DOE die with this group
             t = Tally()
             _check_case(case, t)
-            with os.fdopen(wfd, "wb") as f:
-                pickle.dump(t, f)
+            payload = pickle.dumps(t)
+            with os.fdopen(wfd, "wb") as f:  # length-prefixed: processes left behind by the case keep the pipe open
+                f.write(len(payload).to_bytes(8, "little") + payload)
         except BaseException:
             code = 3
         finally:
@@ -809,16 +812,19 @@ def check_case(case, tally):
     os.close(wfd)
     data = b""
     t_start = time.time()
-    hung = False
+    hung = reaped = False
     tick = os.sysconf("SC_CLK_TCK")
     while True:
         ready, _, _ = select.select([rfd], [], [], 1.0)
         if ready:
             chunk = os.read(rfd, 1 << 16)
-            if not chunk:
-                break
             data += chunk
+            if not chunk or (len(data) >= 8 and len(data) - 8 >= int.from_bytes(data[:8], "little")):
+                break
             continue
+        if os.waitpid(pid, os.WNOHANG)[0] == pid:  # the child is gone without (complete) report
+            reaped = True
+            break
         # the cap is on the CPU time of the child (the machine may be oversubscribed), with a generous wall limit
         try:
             with open(f"/proc/{pid}/stat") as f:
@@ -832,7 +838,10 @@ def check_case(case, tally):
     os.close(rfd)
     if hung:
         os.kill(pid, signal.SIGKILL)
-    os.waitpid(pid, 0)
+    if not reaped:
+        os.waitpid(pid, 0)
+    complete = len(data) >= 8 and len(data) - 8 >= int.from_bytes(data[:8], "little")
+    data = data[8:] if complete else b""
     try:
         os.killpg(pid, signal.SIGKILL)  # whatever the case left behind (multiprocessing manager servers)
     except OSError:
